@@ -173,7 +173,15 @@ def converge_and_check(acc, world, sel, case, meta, depth):
             viol("status failed after drain", rs.as_dict())
             continue
         if rows_before:
-            moved = {n: (rows_before.get(n), rows.get(n)) for n in rows if n not in cone and rows_before.get(n) != rows.get(n)}
+            # (a target downstream of the cone may legitimately change: its dependency was just rebuilt)
+            def touches_cone(n, seen=None):
+                seen = seen if seen is not None else set()
+                for d in rel["dependencies"].get(n, ()):
+                    if d in cone or (d not in seen and not seen.add(d) and touches_cone(d, seen)):
+                        return True
+                return False
+
+            moved = {n: (rows_before.get(n), rows.get(n)) for n in rows if n not in cone and not touches_cone(n) and rows_before.get(n) != rows.get(n)}
             if moved:
                 viol("a run restricted to a cone changed the status of targets outside it", dict(selection=sel, outside=moved), outside=True)
         notdone = sorted(n for n in cone & with_outputs if rows.get(n) != "completed")
@@ -276,6 +284,8 @@ QUICK = [
     dict(wf="chain", backend="sge", accounting=True, hashing=False, sels=(None,), depth=1),
     dict(wf="fork", backend="lsf", accounting=True, hashing=True, sels=(None, ["B"]), depth=1),
     dict(wf="shortcut", backend="sge", accounting=True, hashing=False, sels=(None, ["X"]), depth=1, few=True),
+    # an unrelated component next to the selected cone, hashing on: running one cone changes nothing about the other
+    dict(wf="twocomp", backend="slurm", accounting=True, hashing=True, sels=(["B"], ["X"]), depth=1, few=True),
     # jobs that give their outputs the time stamp of their newest input (ties everywhere)
     dict(wf="chain", backend="slurm", accounting=True, hashing=False, sels=(None,), depth=1, few=True, stamp="tie"),
 ]
@@ -283,6 +293,7 @@ THOROUGH = [dict(wf=wf, backend=be, accounting=acct, hashing=h, sels=(None, ["B"
             for wf in ("fork", "chain") for be, acct in (("slurm", True), ("slurm", False), ("sge", True), ("lsf", True)) for h in (False, True)] + \
            [dict(wf="fork", backend=be, accounting=True, hashing=False, sels=(None,), depth=2, quick_items=True) for be in ("slurm", "lsf")] + \
            [dict(wf=wf, backend="slurm", accounting=True, hashing=h, sels=(None, ["B"]), depth=1, stamp="tie") for wf in ("fork", "chain") for h in (False, True)] + \
+           [dict(wf="twocomp", backend=be, accounting=True, hashing=h, sels=(["B"], ["X"]), depth=1) for be in ("slurm", "lsf") for h in (False, True)] + \
            [dict(wf="diamond", backend=be, accounting=True, hashing=False, sels=(None, ["D"]), depth=1, quick_items=True) for be in ("slurm", "sge", "lsf")]
 
 
